@@ -73,6 +73,8 @@ type ReplayFile struct {
 	Inputs   map[string]uint64 `json:"inputs"`
 	Params   map[string]int    `json:"params"`
 	Native   *NativeResult     `json:"native_result,omitempty"`
+	Choices  map[string]int64  `json:"choices,omitempty"`
+	Events   []string          `json:"write_events,omitempty"`
 	Howto    string            `json:"howto"`
 }
 
@@ -459,7 +461,36 @@ func CmdCheck(args []string) int {
 		j.kind = append(j.kind, kind)
 		j.idx = append(j.idx, idx)
 	}
+	validated := 0
+	nviol := 0
+	var mismatches []string
+	var violLines []string
+	var knownLines []string
 	for i, v := range viols {
+		if v.ob.Kind == "assert-writelog" {
+			// An assertion over the engine's write log (C10/C18 write sets) has no
+			// native observation: the witness is the store instruction and the
+			// path; the replay re-runs the executor on that path against /repo.
+			nviol++
+			params := map[string]int{"tier": tier}
+			for k, pv := range v.h.Params[tier] {
+				params[k] = int(pv)
+			}
+			rf := ReplayFile{Property: prop, Pkg: v.h.Pkg, Harness: v.h.Fn, Kind: v.ob.Kind, Msg: v.ob.Msg, Pos: v.ob.Pos, Inputs: v.ob.Model, Params: params, Choices: v.ob.Choices, Events: v.ob.Events,
+				Howto: "/verif/bin/gosym replay <this file>  (re-executes the harness symbolically on /repo's current tree with the recorded choices and reports the write event if it still occurs)"}
+			b, _ := json.MarshalIndent(rf, "", " ")
+			sum := sha1.Sum(b)
+			dir := filepath.Join(VerifDir, "replays", prop)
+			os.MkdirAll(dir, 0755)
+			path := filepath.Join(dir, fmt.Sprintf("%s-%x.json", v.h.Fn, sum[:6]))
+			os.WriteFile(path, b, 0644)
+			violLines = append(violLines, fmt.Sprintf("VIOLATION property=%s replay=%s", prop, path))
+			fmt.Fprintf(os.Stderr, "violation: %s %s %q at %s -> write log %v choices %v\n", v.h.Fn, v.ob.Kind, v.ob.Msg, v.ob.Pos, v.ob.Events, v.ob.Choices)
+			if len(evSamples) < 8 {
+				evSamples = append(evSamples, map[string]interface{}{"kind": "violation", "harness": v.h.Fn, "obligation": v.ob.Msg, "pos": v.ob.Pos, "write_events": v.ob.Events, "choices": v.ob.Choices})
+			}
+			continue
+		}
 		addCase(v.h, v.ob.Model, "viol", i)
 	}
 	for i, v := range knownHits {
@@ -468,11 +499,6 @@ func CmdCheck(args []string) int {
 	for i, s := range samples {
 		addCase(s.h, s.res.Model, "sample", i)
 	}
-	validated := 0
-	nviol := 0
-	var mismatches []string
-	var violLines []string
-	var knownLines []string
 	pkgs := []string{}
 	for p := range jobs {
 		pkgs = append(pkgs, p)
@@ -596,6 +622,9 @@ func CmdCheck(args []string) int {
 	fmt.Fprintf(os.Stderr, "check %s tier=%s: harnesses=%d violations=%d known=%d engine_errors=%d validated_paths=%d wall=%.1fs\n", prop, *tierS, len(reports), nviol, len(knownLines), len(engineErrors), validated, time.Since(t0).Seconds())
 	if nviol > 0 {
 		return 1
+	}
+	if len(mismatches) > 0 {
+		fmt.Fprintf(os.Stderr, "INCONCLUSIVE %s: %d executor/native disagreements (listed above and in the evidence under engine_errors); candidates that do not reproduce natively are not reported as violations\n", prop, len(mismatches))
 	}
 	return 0
 }
@@ -752,6 +781,9 @@ func CmdReplay(args []string) int {
 	}
 	os.Setenv("PATH", "/opt/veriftools/go1.26.8/bin:"+os.Getenv("PATH"))
 	hdir := filepath.Join(VerifDir, "harness")
+	if rf.Kind == "assert-writelog" {
+		return replayWriteLog(rf, hdir, args[0])
+	}
 	// package name: read from any harness file
 	pkgname := filepath.Base(rf.Pkg)
 	ents, _ := os.ReadDir(filepath.Join(hdir, rf.Pkg))
@@ -833,3 +865,46 @@ func CmdNative(args []string) int {
 }
 
 func ssautilAllFunctions(prog *Program) map[*ssa.Function]bool { return ssautil.AllFunctions(prog.Prog) }
+
+// replayWriteLog re-executes a harness symbolically with the recorded choices
+// and reports whether the write-log assertion is still violated.
+func replayWriteLog(rf ReplayFile, hdir, file string) int {
+	prog, err := Load(hdir, []string{"./" + rf.Pkg})
+	if err != nil {
+		fmt.Fprintln(os.Stderr, err)
+		return 2
+	}
+	f := prog.Func(rf.Pkg, rf.Harness)
+	if f == nil {
+		fmt.Fprintln(os.Stderr, "harness function missing")
+		return 2
+	}
+	cfg := DefaultConfig()
+	cfg.Params = map[string]int64{}
+	for k, v := range rf.Params {
+		cfg.Params[k] = int64(v)
+	}
+	for k, v := range rf.Choices {
+		cfg.Params["fix."+k] = v
+	}
+	cfg.MaxSteps = 900_000_000
+	cfg.Deadline = time.Now().Add(10 * time.Minute)
+	run := NewRun(prog, f, cfg)
+	run.Name = rf.Harness
+	hit := false
+	run.Hooks.OnPath = func(r *PathResult) {
+		for _, o := range r.Oblig {
+			if o.Kind == "assert-writelog" && o.Msg == rf.Msg && o.Result == "VIOLATED" {
+				hit = true
+				fmt.Printf("write log on /repo's current tree, choices %v: %v\n", o.Choices, o.Events)
+			}
+		}
+	}
+	run.Explore()
+	if hit {
+		fmt.Printf("VIOLATION property=%s replay=%s\n", rf.Property, file)
+		return 1
+	}
+	fmt.Println("write-log assertion holds on the recorded choices")
+	return 0
+}
